@@ -18,7 +18,9 @@ R: every sheet is written in both file formats and read by the real ReadNGSFilte
 T: seeded random sheets / scenarios beyond the model (primers 18-25 with IUPAC codes, tags 6-8, random
    barcodes and flanks, primer indels, tag delimiters and rescue) are run on both strands and logged with
    the pieces they were built from; DemuxTrace.tla rebuilds the read, re-evaluates the specification and
-   judges the safety clause on the logged read, records and sheet only.
+   judges the safety clause on the logged read, records and sheet only.  Smoke test on real data: the first
+   read pairs of sample/wolf_[FR].fastq.gz (assembled by obipairing) x sample/wolf_diet_ngsfilter.txt through
+   the library and the binary, validated the same way (events "W").
 """
 import json
 import os
@@ -79,10 +81,38 @@ def validate_events(ctx, path, timeout):
     return events, rejects
 
 
+def wolf_events(ctx, bindir, npairs):
+    """Smoke test on the repository's real data: the first read pairs of sample/wolf_[FR].fastq.gz are assembled
+    by obipairing (only to get full-length amplicons), demultiplexed with sample/wolf_diet_ngsfilter.txt through
+    the library and the binary on both strands, and logged as events (src "W") for DemuxTrace."""
+    import gzip
+    sdir = os.path.join(vlib.REPO, "sample")
+    sheet = os.path.join(sdir, "wolf_diet_ngsfilter.txt")
+    out = ctx.path("wolf.ndjson")
+    if not all(os.path.exists(os.path.join(sdir, f)) for f in ("wolf_F.fastq.gz", "wolf_R.fastq.gz", "wolf_diet_ngsfilter.txt")):
+        ctx.assumptions.append("sample/wolf_* not found: smoke test on real data skipped")
+        return out
+    for side in "FR":
+        with gzip.open(os.path.join(sdir, "wolf_%s.fastq.gz" % side), "rt") as f, open(ctx.path("wolf_%s.fastq" % side), "w") as g:
+            for i, line in enumerate(f):
+                if i >= 4 * npairs:
+                    break
+                g.write(line)
+    paired = ctx.path("wolf_paired.fastq")
+    r = ctx.run_many([{"argv": [os.path.join(bindir, "obipairing"), "-F", ctx.path("wolf_F.fastq"), "-R", ctx.path("wolf_R.fastq"),
+                                "--no-progressbar", "--max-cpu", "4"], "timeout": 600}])[0]
+    if r["rc"] != 0 or not r["out"].strip():
+        raise vlib.Inconclusive("obipairing could not assemble the wolf sample reads (input of the smoke test): rc=%s %s" % (r["rc"], r["err"][-300:]))
+    open(paired, "wb").write(r["out"])
+    ctx.harness(["record", "C12W", "--out", out, "--n", npairs, "--opt", "sheet=" + sheet, "--opt", "reads=" + paired,
+                 "--opt", "bin=" + os.path.join(bindir, "obimultiplex"), "--opt", "work=" + ctx.path("work")], timeout=900)
+    return out
+
+
 def main(ctx):
     thorough = ctx.tier == "thorough"
     load_own_findings(ctx)
-    bindir = ctx.build_cmds(["obimultiplex"])
+    bindir = ctx.build_cmds(["obimultiplex", "obipairing"])
     binpath = os.path.join(bindir, "obimultiplex")
     if ctx.replay:
         blob = json.load(open(ctx.replay))
@@ -124,7 +154,7 @@ def main(ctx):
                 mcls[key] = mcls.get(key, 0) + 1
     ctx.extra["exported_sheets"] = nsheets
     ctx.extra["exported_cases"] = ncases
-    for need in ("M:base", "M:mism", "M:tagedit", "M:partial", "M:dimer", "M:cross", "M:nosite", "M:chimera", "M:chimera-partial",
+    for need in ("M:base", "M:mism", "M:tagedit", "M:partial", "M:dimer", "M:cross", "M:nosite", "M:chimera", "M:chimera-partial", "M:interleaved",
                  "M:unambiguous", "M:plantable", "M:two-records", "M:no-record", "M:unassigned-record", "M:assigned-record"):
         ctx.expect_vacuity("model class " + need, mcls.get(need, 0))
     if mcls.get("M:ambiguous", 0) * 5 > ncases:
@@ -134,7 +164,7 @@ def main(ctx):
     res = ctx.path("res.ndjson")
     rev = ctx.path("revents.ndjson")
     ctx.harness(["replay", "C12", "--cases", cases, "--out", res, "--opt", "bin=" + binpath, "--opt", "work=" + ctx.path("work"),
-                 "--opt", "events=" + rev, "--opt", "evrate=%d" % (25 if thorough else 60)], timeout=3000)
+                 "--opt", "events=" + rev, "--opt", "evrate=%d" % (25 if thorough else 80)], timeout=3000)
     summ = ctx.add_results(res)
     vac = []
     for need in ("sheet-read/csv", "sheet-read/old", "binary-run/csv", "binary-run/old", "lib-csv/base", "lib-old/base", "bin-csv/base",
@@ -147,9 +177,10 @@ def main(ctx):
     trace = ctx.path("trace.ndjson")
     ctx.harness(["record", "C12", "--out", trace, "--n", 2400 if thorough else 280, "--opt", "sheets=%d" % (160 if thorough else 40)],
                 timeout=900)
+    wolf = wolf_events(ctx, bindir, 1500 if thorough else 120)
     allev = ctx.path("events.ndjson")
     with open(allev, "wb") as out:
-        for p in (rev, trace):
+        for p in (rev, trace, wolf):
             if os.path.exists(p):
                 with open(p, "rb") as f:
                     for line in f:
@@ -157,6 +188,10 @@ def main(ctx):
     events, rejects = validate_events(ctx, allev, 3000 if thorough else 600)
     tcls = {}
     for ev in events:
+        if ev["src"] == "W":
+            k = "W:" + ev["cls"] + ("/assigned" if any(o["smp"] for o in ev["out"]) else "/flagged")
+            tcls[k] = tcls.get(k, 0) + 1
+            continue
         if ev["src"] != "T":
             tcls["R-events"] = tcls.get("R-events", 0) + 1
             continue
@@ -173,11 +208,14 @@ def main(ctx):
             tcls["T:two-records"] = tcls.get("T:two-records", 0) + 1
         if ev["none"] == 1:
             tcls["T:flagged-read"] = tcls.get("T:flagged-read", 0) + 1
-    for need in ("R-events", "T:forward", "T:reverse", "T:chimera", "T:partial", "T:nosite", "T:primer-mismatch", "T:over-budget",
+    for need in ("R-events", "T:forward", "T:reverse", "T:chimera", "T:partial", "T:nosite", "T:tiny", "T:primer-mismatch", "T:over-budget",
                  "T:tag-sub", "T:tag-del", "T:tag-ins", "T:primer-indel", "T:indel-primers", "T:delimiter", "T:rescue",
                  "T:mode-strict", "T:mode-hamming", "T:mode-indel", "T:fmt-csv", "T:fmt-old", "T:assigned", "T:assigned-delimiter",
                  "T:flagged-amplicon", "T:two-records", "T:flagged-read"):
         vac.append(("trace class " + need, tcls.get(need, 0)))
+    if os.path.exists(os.path.join(vlib.REPO, "sample", "wolf_F.fastq.gz")):
+        vac.append(("real data through the library, assigned", tcls.get("W:wolf/library/assigned", 0)))
+        vac.append(("real data through the binary, assigned", tcls.get("W:wolf/binary/assigned", 0)))
     ctx.classes.update(tcls)
     if not ctx.violations and not ctx.known_hits:
         for name, k in vac:
